@@ -127,7 +127,10 @@ func (g *irGenCtx) genValidator(ty string) string {
 	case strings.HasPrefix(ty, "[]"):
 		pool = []string{"required", "minItems=1", "maxItems=5", "uniqueItems=true", "dive"}
 	case base == "string":
-		pool = []string{"required", "email", "uuid", "ip", "ipv4", "ipv6", "hostname", "date", "datetime", "min=2", "max=10", "len=3", "pattern=^a+$", "oneof=a b c", "enum=a|b", "pattern=^[a-z]+=[a-z]+$", "oneof=k=v x=y", "enum=a=1|b=2"}
+		pool = []string{"required", "email", "uuid", "ip", "ipv4", "ipv6", "hostname", "date", "datetime", "min=2", "max=10", "len=3", "pattern=^a+$", "oneof=a b c", "enum=a|b", "pattern=^[a-z]+=[a-z]+$", "oneof=k=v x=y", "enum=a=1|b=2",
+			// rules the spec converters do not read, with characters a template engine escapes: all five routers must hand
+			// go-playground the SAME tag text
+			"excludesall=<>", "containsany=&'", "startsnotwith=\"q"}
 	case base == "bool":
 		pool = []string{"required"}
 	case base == "float32" || base == "float64":
